@@ -200,6 +200,10 @@ pub struct C15Result {
 /// Execute an explicit run and apply the C15 oracles. `fresh`: also compare
 /// with fresh-process baselines.
 pub fn check_run(run: &Run, fresh: bool) -> C15Result {
+    check_run_opts(run, fresh, false)
+}
+
+pub fn check_run_opts(run: &Run, fresh: bool, retain: bool) -> C15Result {
     let built: Vec<BuiltScen> = run
         .scens
         .iter()
@@ -219,6 +223,7 @@ pub fn check_run(run: &Run, fresh: bool) -> C15Result {
     let before: Vec<Vec<Out>> = run.specs.iter().map(|sp| alone_inproc(&built[sp.scen], sp)).collect();
     let mut w = World::with_built(built.clone(), &run.specs, run.execs);
     w.drain_cap = run.scens.iter().map(cap_for).max().unwrap_or(10_000);
+    w.retain = retain;
     // interleaved phase; track how many iterators are alive at once
     for s in &run.steps {
         w.apply(*s);
@@ -233,10 +238,25 @@ pub fn check_run(run: &Run, fresh: bool) -> C15Result {
     res.trace_hash = w.trace_hash();
     res.states = w.state_hashes.len();
     res.log = w.log.get();
+    let retained_n = w.retained.len();
+    let changed = if retain { w.recheck_retained() } else { None };
+    if retain {
+        *res.probes.entry("showdowns_retained_and_digested_again_at_the_end".into()).or_insert(0) += retained_n as u64;
+        if retained_n >= 2048 {
+            *res.probes.entry("runs_retaining_2048plus_showdowns".into()).or_insert(0) += 1;
+        }
+    }
     let effs: Vec<Vec<Out>> = w.tasks.iter().map(|t| t.effective()).collect();
     let threads_per_task: Vec<usize> = w.tasks.iter().map(|t| t.incs.iter().map(|i| i.threads.len()).max().unwrap_or(0)).collect();
     let anomalies: Vec<Option<String>> = w.tasks.iter().map(|t| t.anomaly.clone()).collect();
     drop(w);
+    if let Some((ti, i, then, now)) = changed {
+        res.key = Some((
+            "retained_showdown_changed".into(),
+            format!("evaluator {ti}: a showdown kept alive by the caller (retained #{i} of {retained_n}) digests to {now:x} at the end of the run, {then:x} when it was yielded"),
+        ));
+        return res;
+    }
     // baseline AFTER every evaluator of the run has lived and died
     let after: Vec<Vec<Out>> = run.specs.iter().map(|sp| alone_inproc(&built[sp.scen], sp)).collect();
     for (ti, sp) in run.specs.iter().enumerate() {
@@ -326,6 +346,7 @@ struct Case {
     run: Run,
     res: C15Result,
     sample: Value,
+    retain: bool,
 }
 
 fn small_window(rng: &mut Rng, prod: u64) -> Option<(Pos, Pos)> {
@@ -348,8 +369,39 @@ fn small_window(rng: &mut Rng, prod: u64) -> Option<(Pos, Pos)> {
     Some((pos_from_index(fi), pos_from_index(ti)))
 }
 
+/// Retention case: a few whole-line evaluators with single-combo players, every
+/// showdown kept alive by the caller (as a worker returning Vec<Showdown> does)
+/// and digested again after all of them finished: thousands of boards later.
+fn gen_retention_case(seed: u64) -> Case {
+    let mut rng = Rng::new(seed);
+    let e = rng.range(3, 5) as usize;
+    let mut scens = vec![];
+    let mut specs = vec![];
+    for i in 0..e {
+        let flop = gen_flop(&mut rng);
+        let np = rng.range(1, 2) as usize;
+        let players: Vec<RangeRecipe> = (0..np).map(|_| RangeRecipe::simple(gen_combos(&mut rng, 1, false).into_iter().map(|c| (c.0, c.1, 1.0f32.to_bits())).collect())).collect();
+        scens.push(Scenario { flop, players });
+        specs.push(TaskSpec { scen: i, scope: None, pre: vec![], extra_polls: 0 });
+    }
+    let execs = rng.range(0, 2) as usize;
+    let policy = *rng.pick(&[Policy::RoundRobin, Policy::Bursts, Policy::RunToCompletion]);
+    let cfg = SchedCfg { policy, crash_resume_pm: 0, restart_pm: 0, max_crashes: 0, migrate: execs > 1, max_steps: 400_000 };
+    let mut w = World::new(&scens, &specs, execs);
+    w.track_states = false;
+    schedule(&mut w, &mut rng, &cfg);
+    let run = Run { scens: scens.clone(), specs, steps: w.trace.clone(), execs };
+    drop(w);
+    let res = check_run_opts(&run, false, true);
+    let sample = json!({"retention_case": true, "evaluators": e, "scenarios": scens.iter().map(|s| s.short()).collect::<Vec<_>>(), "executors": execs, "policy": format!("{:?}", policy)});
+    Case { run, res, sample, retain: true }
+}
+
 fn gen_case(seed: u64, thorough: bool, fresh: bool) -> Case {
     let mut rng = Rng::new(seed);
+    if !fresh && rng.chance(1, 40) {
+        return gen_retention_case(rng.next_u64());
+    }
     let e = if thorough && rng.chance(1, 10) { rng.range(9, 32) } else { rng.range(1, 8) } as usize;
     let nscen = rng.range(1, e.min(4) as u64) as usize;
     let params = ScenParams { max_players: 3, max_product: 24, allow_zero_players: true, hash_seeds: true };
@@ -411,7 +463,7 @@ fn gen_case(seed: u64, thorough: bool, fresh: bool) -> Case {
         "faults": res.faults,
         "trace_head": encode_steps(&run.steps).into_iter().take(16).collect::<Vec<_>>(),
     });
-    Case { run, res, sample }
+    Case { run, res, sample, retain: false }
 }
 
 fn run_key(okey: &str, run: &Run) -> String {
@@ -421,9 +473,14 @@ fn run_key(okey: &str, run: &Run) -> String {
 }
 
 fn to_replay(run: &Run, fresh: bool) -> Value {
+    to_replay_r(run, fresh, false)
+}
+
+fn to_replay_r(run: &Run, fresh: bool, retain: bool) -> Value {
     let mut rj = run.to_json();
     rj["kind"] = json!("c15_run");
     rj["fresh"] = json!(fresh);
+    rj["retain"] = json!(retain);
     rj
 }
 
@@ -432,6 +489,17 @@ pub fn case(batch: &str, tier: &str, i: u64) -> CaseOut {
     let vs = verif_seed();
     let seed = run_seed(vs, "C15", batch, i);
     let mut out = CaseOut { index: i, seed, evals: 1, ..Default::default() };
+    if batch == "native-heavy" {
+        *out.probes.entry("native_heavy_runs_16_threads".into()).or_insert(0) += 1;
+        if let Some(d) = native_heavy(seed) {
+            out.violation = Some((
+                "native_concurrent".into(),
+                format!("16 threads draining whole-line evaluators concurrently diverged from the alone run: {d} (OS schedule: may not replay)"),
+                json!({"kind":"c15_native","heavy":true,"seed": seed.to_string()}),
+            ));
+        }
+        return out;
+    }
     if batch == "native" {
         *out.probes.entry("native_concurrent_runs".into()).or_insert(0) += 1;
         if let Some(d) = native_concurrent(seed) {
@@ -477,7 +545,7 @@ pub fn case(batch: &str, tier: &str, i: u64) -> CaseOut {
     out.extra = json!({"trace": c.res.trace_hash.to_string()});
     if let Some((okey, detail)) = &c.res.key {
         let fr = fresh && okey == "run_vs_fresh_process";
-        out.violation = Some((okey.clone(), detail.clone(), to_replay(&c.run, fr)));
+        out.violation = Some((okey.clone(), detail.clone(), to_replay_r(&c.run, fr, c.retain)));
     }
     out
 }
@@ -486,8 +554,10 @@ pub fn eval(v: &Value) -> Option<(String, String)> {
     match v["kind"].as_str().unwrap_or("") {
         "c15_native" => {
             let seed: u64 = v["seed"].as_str()?.parse().ok()?;
+            let heavy = v["heavy"].as_bool().unwrap_or(false);
             for _ in 0..20 {
-                if let Some(d) = native_concurrent(seed) {
+                let r = if heavy { native_heavy(seed) } else { native_concurrent(seed) };
+                if let Some(d) = r {
                     return Some(("native_concurrent".into(), d));
                 }
             }
@@ -496,7 +566,8 @@ pub fn eval(v: &Value) -> Option<(String, String)> {
         _ => {
             let run = Run::from_json(v).ok()?;
             let fresh = v["fresh"].as_bool().unwrap_or(false);
-            check_run(&run, fresh).key
+            let retain = v["retain"].as_bool().unwrap_or(false);
+            check_run_opts(&run, fresh, retain).key
         }
     }
 }
@@ -507,13 +578,14 @@ fn minimise_json(replay: &Value, _okey: &str, pred: &dyn Fn(&Value) -> bool) -> 
     }
     let Ok(run) = Run::from_json(replay) else { return (replay.clone(), 0) };
     let fresh = replay["fresh"].as_bool().unwrap_or(false);
-    let fails = move |r: &Run| -> bool { pred(&to_replay(r, fresh)) };
+    let retain = replay["retain"].as_bool().unwrap_or(false);
+    let fails = move |r: &Run| -> bool { pred(&to_replay_r(r, fresh, retain)) };
     let (min, tried) = shrink_run(
         run,
         &fails,
         ShrinkOpts { drop_tasks: true, drop_players: true, narrow_scopes: true, max_candidates: if fresh { 100 } else { 250 } },
     );
-    (to_replay(&min, fresh), tried)
+    (to_replay_r(&min, fresh, retain), tried)
 }
 
 fn key_json(okey: &str, min: &Value) -> String {
@@ -581,6 +653,72 @@ fn native_concurrent(seed: u64) -> Option<String> {
                         }
                     }
                     None
+                })
+                .unwrap()
+        })
+        .collect();
+    let mut res = None;
+    for (i, h) in hs.into_iter().enumerate() {
+        match h.join() {
+            Ok(Some(d)) => res = res.or(Some(format!("thread {i} of {n}: {d}"))),
+            Ok(None) => {}
+            Err(_) => res = res.or(Some(format!("thread {i} of {n}: panic escaped"))),
+        }
+    }
+    res
+}
+
+/// Heavy native run: 16 threads, each draining whole-line evaluators over
+/// multi-combo ranges on its own flop at the same time, several rounds. Volume
+/// is the point: races in process-wide tables need many concurrent hands.
+fn native_heavy(seed: u64) -> Option<String> {
+    let mut rng = Rng::new(seed);
+    let n = 16usize;
+    let mut jobs: Vec<BuiltScen> = vec![];
+    for _ in 0..n {
+        let flop = gen_flop(&mut rng);
+        let mut players = vec![];
+        for _ in 0..2 {
+            // two pocket pairs (12 combos), weights 1
+            let mut e = vec![];
+            for _ in 0..2 {
+                let r = rng.below(13) as u8;
+                for a in 0..4u8 {
+                    for b in (a + 1)..4u8 {
+                        let c = (r * 4 + a, r * 4 + b, 1.0f32.to_bits());
+                        if !e.contains(&c) {
+                            e.push(c);
+                        }
+                    }
+                }
+            }
+            players.push(RangeRecipe::simple(e));
+        }
+        let s = Scenario { flop, players };
+        jobs.push(BuiltScen { scen: s.clone(), ranges: Arc::new(s.build_ranges()) });
+    }
+    let spec = TaskSpec { scen: 0, scope: None, pre: vec![], extra_polls: 0 };
+    let alone: Vec<Vec<Out>> = jobs.iter().map(|b| alone_inproc(b, &spec)).collect();
+    let barrier = Arc::new(std::sync::Barrier::new(n));
+    let hs: Vec<_> = jobs
+        .iter()
+        .cloned()
+        .zip(alone.iter().cloned())
+        .map(|(b, want)| {
+            let bar = barrier.clone();
+            let spec = spec.clone();
+            std::thread::Builder::new()
+                .stack_size(64 << 20)
+                .spawn(move || -> Option<String> {
+                    let mut bad = None;
+                    for round in 0..3 {
+                        bar.wait();
+                        let got = alone_inproc(&b, &spec);
+                        if bad.is_none() && !same_seq(&got, &want) {
+                            bad = Some(format!("round {round}, {}: {}", b.scen.short(), first_diff(&got, &want)));
+                        }
+                    }
+                    bad
                 })
                 .unwrap()
         })
@@ -685,7 +823,9 @@ pub fn run(tier: &str) -> i32 {
     let n_native: u64 = if quick { 60 } else { 1500 };
     let mut traces: std::collections::BTreeSet<u64> = Default::default();
     let chunk: u64 = if quick { 8 } else { 64 };
-    for (batch, n) in [("inproc", n_plain), ("fresh", n_fresh), ("native", n_native)] {
+    let n_heavy: u64 = if quick { 3 } else { 48 };
+    for (batch, n) in [("inproc", n_plain), ("fresh", n_fresh), ("native", n_native), ("native-heavy", n_heavy)] {
+        let chunk = if batch == "native-heavy" { 1 } else { chunk };
         let chunks = run_batch("C15", batch, n, chunk, tier, false);
         for (ci, ch) in chunks.iter().enumerate() {
             let chunk_first = ci as u64 * chunk;
